@@ -107,6 +107,13 @@ pub fn c09_run(args: &Args) -> i32 {
         sessions.push(vec![pl.clone(), "go movetime 100".into(), "isready".into(), "go nodes 500".into(), "isready".into()]);
         sessions.push(vec![pl.clone(), "go wtime 2000 btime 2000".into(), "isready".into(), "go infinite".into(), "stop".into(), "isready".into()]);
     }
+    // the mover's own clock is tiny and the OPPONENT's increment enormous (and the other way
+    // round): only the mover's clock and increment may enter the budget
+    sessions.push(vec!["position startpos".into(), "go wtime 200 binc 120000".into(), "isready".into(), "go wtime 200 btime 1000000 binc 120000".into(), "isready".into()]);
+    sessions.push(vec!["position startpos moves e2e4".into(), "go btime 200 winc 120000".into(), "isready".into(), "go btime 200 wtime 1000000 winc 120000".into(), "isready".into()]);
+    // clocks that leave a budget of a few milliseconds
+    sessions.push(vec!["position startpos".into(), "go wtime 150 btime 150".into(), "isready".into(), "go wtime 21 btime 21 winc 1 binc 1".into(), "isready".into()]);
+    sessions.push(vec!["position startpos moves e2e4".into(), "go wtime 150 btime 150".into(), "isready".into(), "go wtime 39 btime 39".into(), "isready".into()]);
     let gos = AtomicU64::new(0);
     let max_wait = AtomicU64::new(0);
     let machinery: Mutex<Vec<String>> = Mutex::new(vec![]);
@@ -595,6 +602,33 @@ pub fn c15_worker(args: &Args, w: &Worker) -> i32 {
                     w.violation(
                         &format!("fen-truncated|{}", if parsed.is_err() { "parse" } else { "exec" }),
                         &format!("the line '{line}' (no complete FEN argument) panics on the main thread ({}) instead of being rejected", super::searchrun::last_panic()),
+                        &obj(vec![("kind", s("exec")), ("line", s(line.clone()))]),
+                    );
+                }
+            }
+        }
+    }
+    // E1d: junk that is not ASCII: a two-, three- and four-byte character at EVERY byte offset
+    // 0..=80 of an otherwise ASCII junk line (anything that cuts, pads or echoes a line by bytes)
+    for ch in ["\u{e9}", "\u{20ac}", "\u{1f600}"] {
+        for lead in ["", "go depth 3 searchmoves ", "position startpos moves ", "setoption name "] {
+            for pad in 0..=80usize {
+                total += 1;
+                if total % w.nshards as u64 != w.shard as u64 {
+                    continue;
+                }
+                let line = format!("{lead}{}{ch}2{ch}4 tail", "x".repeat(pad));
+                w.count("non_ascii_lines_executed", 1);
+                c15_guard(&line);
+                let toks: Vec<&str> = line.split_whitespace().collect();
+                let script = format!("{line}\nisready\nquit\n");
+                let parsed = std::panic::catch_unwind(|| crate::uci::rce_verif_parse(&toks).is_ok());
+                let ran = std::panic::catch_unwind(|| crate::uci::rce_verif_run_script(&script));
+                if parsed.is_err() || ran.is_err() {
+                    w.count("parser_panics", 1);
+                    w.violation(
+                        &format!("non-ascii|{lead}|{}", if parsed.is_err() { "parse" } else { "exec" }),
+                        &format!("the line '{line}' (non-ASCII junk, {} bytes) panics on the main thread ({})", line.len(), super::searchrun::last_panic()),
                         &obj(vec![("kind", s("exec")), ("line", s(line.clone()))]),
                     );
                 }
